@@ -405,6 +405,8 @@ class Ctx:
                 unreproduced += 1
         if unreproduced and rc == 0:
             rc = 2
+        if not self.samples:
+            raise MachineryError("the run produced no sample case for the evidence file")
         cov = {
             "states": self.states,
             "transitions": self.transitions,
